@@ -947,6 +947,65 @@ pub fn program_set(set: &str) -> Vec<Program<SyncFam>> {
         });
     }
 
+    // --- unpark of a task that is blocked in ANOTHER primitive, which then parks ------------------
+    // (the token must survive: seed C05-unpark-of-blocked-task-drops-token was invisible without
+    // programs mixing park with barrier / condvar / join / scope end)
+    let mix = SCfg {
+        mutexes: 1,
+        condvars: 1,
+        barriers: vec![2],
+        onces: 0,
+    };
+    for parks in [vec![SOp::Park], vec![SOp::Park, SOp::Park]] {
+        // barrier: T1 waits at the barrier, is unparked meanwhile, then parks
+        for t2 in [vec![SOp::Unpark(1), SOp::BarrierWait(0)], vec![SOp::BarrierWait(0), SOp::Unpark(1)], vec![SOp::Unpark(1), SOp::Unpark(1), SOp::BarrierWait(0)]] {
+            let mut t1 = vec![SOp::BarrierWait(0)];
+            t1.extend(parks.clone());
+            out.push(Program::fork_join(mix.clone(), vec![], vec![t1, t2]));
+        }
+        // condvar: T1 waits, T2 unparks it and then notifies (or notifies first)
+        for t2 in [
+            vec![SOp::Unpark(1), SOp::Lock(0), SOp::Set(0, 1), SOp::NotifyOne(0), SOp::Unlock(0)],
+            vec![SOp::Lock(0), SOp::Set(0, 1), SOp::NotifyOne(0), SOp::Unlock(0), SOp::Unpark(1)],
+            vec![SOp::Lock(0), SOp::Set(0, 1), SOp::Unpark(1), SOp::NotifyAll(0), SOp::Unlock(0)],
+        ] {
+            let mut t1 = vec![SOp::Lock(0), SOp::WaitWhile0(0, 0), SOp::Unlock(0)];
+            t1.extend(parks.clone());
+            out.push(Program::fork_join(mix.clone(), vec![], vec![t1, t2]));
+        }
+        // join: main joins T1 (blocked in join), T1 unparks main before finishing; main parks afterwards
+        {
+            let mut main = vec![GOp::Spawn(1), GOp::Join(1)];
+            main.extend(g(&parks));
+            out.push(Program {
+                cfg: mix.clone(),
+                threads: vec![main, g(&[SOp::Yield, SOp::Unpark(0)])],
+            });
+            let mut main = vec![GOp::Spawn(1), GOp::Spawn(2), GOp::Join(1)];
+            main.extend(g(&parks));
+            main.push(GOp::Join(2));
+            out.push(Program {
+                cfg: mix.clone(),
+                threads: vec![main, g(&[SOp::Yield]), g(&[SOp::Unpark(0)])],
+            });
+        }
+        // scope end: the owner waits for its scoped thread, which unparks it; the owner parks afterwards
+        {
+            let mut main = vec![GOp::ScopeBegin(vec![1]), GOp::ScopeEnd];
+            main.extend(g(&parks));
+            out.push(Program {
+                cfg: mix.clone(),
+                threads: vec![main, g(&[SOp::Yield, SOp::Unpark(0)])],
+            });
+        }
+        // mutex (the task sleeps instead of being blocked): T1 queues for the lock, is unparked, parks
+        for t2 in [vec![SOp::Lock(0), SOp::Unpark(1), SOp::Unlock(0)], vec![SOp::Lock(0), SOp::Unpark(1), SOp::Yield, SOp::Unlock(0)]] {
+            let mut t1 = vec![SOp::Lock(0), SOp::Unlock(0)];
+            t1.extend(parks.clone());
+            out.push(Program::fork_join(mix.clone(), vec![], vec![t1, t2]));
+        }
+    }
+
     out.sort_by_key(|p| p.size());
     out
 }
